@@ -387,7 +387,10 @@ func (a *argSpec) typeCheck(arg interface{}) error {
 				return nil
 			}
 		case jpAny:
-			return nil
+			// Any JSON value; an expression reference is not a value.
+			if _, ok := arg.(expRef); !ok {
+				return nil
+			}
 		case jpExpref:
 			if _, ok := arg.(expRef); ok {
 				return nil
